@@ -448,7 +448,8 @@ def onEst (p : Peer) (c : Caps) : Peer :=
   let p2 := onStateChange p1 .established false
   { p2 with restartAt := none }
 
-def step (p : Peer) : Ev → Peer
+/-- the effect of one event, before the timers that it makes due at once are fired -/
+def stepRaw (p : Peer) : Ev → Peer
   | .est c => onEst p c
   | .loss k => onLoss p k
   | .goto n ad => if p.est || n == .established then p else onStateChange p n false ad
@@ -456,6 +457,13 @@ def step (p : Peer) : Ev → Peer
   | .wd f k => onWithdraw p f k
   | .eor f => onEOR p f
   | .tick d => tick p d
+
+/-- one event of a history.  Timer values are inputs and may be 0 ("expire at once"): whatever an event
+arms with a deadline equal to the present instant fires before the next event (`tick · 0`). -/
+def step (p : Peer) (e : Ev) : Peer :=
+  match e with
+  | .tick d => tick p d
+  | e => tick (stepRaw p e) 0
 
 def run (p : Peer) (evs : List Ev) : Peer := evs.foldl step p
 
